@@ -8,15 +8,15 @@ Import ListNotations.
 Local Open Scope R_scope.
 
 (* what an Ok gives (abstract target): x is the Newton step from a previous iterate x' and either the
-   target vanishes at x or the last step is below tol percent of |x|.  The hypothesis tol <= 100 is
-   needed: the carried error starts at 100 and is stale at an iterate 0 (finding F-C07-STALE-100). *)
+   target vanishes at x or the last step is below tol percent of |x|.  For every tolerance: as of 8dfb6bc
+   an iterate 0 that is no root carries the relative change INFINITY (before: the stale initial 100). *)
 Theorem c07_sound : forall (f f' : R -> res R) x0 cap tol x,
-  tol <= 100 -> nrm f f' x0 cap tol = Ok x ->
+  nrm f f' x0 cap tol = Ok x ->
   exists x' v d, f x' = Ok v /\ f' x' = Ok d /\ x = x' - v / d /\
     (f x = Ok 0 \/ (x <> 0 /\ Rabs (x - x') * 100 < tol * Rabs x)).
 Proof. exact Proofs.Newton.c07_sound. Qed.
 Check c07_sound : forall (f f' : R -> res R) x0 cap tol x,
-  tol <= 100 -> nrm f f' x0 cap tol = Ok x ->
+  nrm f f' x0 cap tol = Ok x ->
   exists x' v d, f x' = Ok v /\ f' x' = Ok d /\ x = x' - v / d /\
     (f x = Ok 0 \/ (x <> 0 /\ Rabs (x - x') * 100 < tol * Rabs x)).
 Print Assumptions c07_sound.
@@ -26,7 +26,7 @@ Print Assumptions c07_sound.
    (g1 x' <> 0: over R a division by zero is an unspecified number; over floats it yields inf/NaN, which
    never passes the exit test.) *)
 Theorem c07_sound_simple : forall (p : spoly R) x0 cap tol mode x,
-  tol <= 100 -> s_nrm p x0 cap tol mode = Ok x ->
+  s_nrm p x0 cap tol mode = Ok x ->
   let g := eval_simple (s_target p mode) in
   let g1 := eval_simple (sd (s_target p mode)) in
   let g2 := eval_simple (sd (sd (s_target p mode))) in
@@ -38,7 +38,7 @@ Theorem c07_sound_simple : forall (p : spoly R) x0 cap tol mode x,
           g x = 0 \/ Rabs (g x) <= M / 2 * (tol / 100 * Rabs x) ^ 2)).
 Proof. exact Proofs.Newton.c07_sound_simple. Qed.
 Check c07_sound_simple : forall (p : spoly R) x0 cap tol mode x,
-  tol <= 100 -> s_nrm p x0 cap tol mode = Ok x ->
+  s_nrm p x0 cap tol mode = Ok x ->
   let g := eval_simple (s_target p mode) in
   let g1 := eval_simple (sd (s_target p mode)) in
   let g2 := eval_simple (sd (sd (s_target p mode))) in
@@ -111,12 +111,17 @@ Check c07_monotone_partial : forall (p : spoly R) r tol cap (s s' : nstate R) b,
   r <= ns_x s' < ns_x s.
 Print Assumptions c07_monotone_partial.
 
-(* the hypothesis tol <= 100 cannot be dropped: with tol = 200 (percent) the iterate 0 of x^2 + 1 from 1 is
-   returned although g 0 = 1 (the stale initial error 100; finding F-C07-STALE-100, also observed on the real code) *)
-Theorem c07_tol_above_100_counterexample : nrm (fun x => Ok (x * x + 1)) (fun x => Ok (2 * x)) 1 100 200 = Ok 0.
-Proof. exact Proofs.Newton.c07_tol_above_100_counterexample. Qed.
-Check c07_tol_above_100_counterexample : nrm (fun x => Ok (x * x + 1)) (fun x => Ok (2 * x)) 1 100 200 = Ok 0.
-Print Assumptions c07_tol_above_100_counterexample.
+(* regression of the repaired finding F-C07-STALE-100 (8dfb6bc): x^2 + 1 from 1 with tol = 200 (percent); the
+   first iterate is 0 and no root, its relative change is INFINITY and the loop does NOT stop there
+   (before the repair the call returned Ok 0).  The next step divides by g' 0 = 0, which is unspecified
+   over R; over floats it gives -inf, then NaN, and the call ends in MaxIterationsReached (regression
+   case of the correspondence check). *)
+Theorem c07_stale_100_repaired : exists s', nr_body (fun x => Ok (x * x + 1)) (fun x => Ok (2 * x)) 200 100 (nr_start 1) = Ok (s', false) /\
+             ns_x s' = 0 /\ ns_err s' = None.
+Proof. exact Proofs.Newton.c07_stale_100_repaired. Qed.
+Check c07_stale_100_repaired : exists s', nr_body (fun x => Ok (x * x + 1)) (fun x => Ok (2 * x)) 200 100 (nr_start 1) = Ok (s', false) /\
+             ns_x s' = 0 /\ ns_err s' = None.
+Print Assumptions c07_stale_100_repaired.
 
 (* non-vacuity: 2x from 3 returns Ok 0 (a root at the origin), so the hypotheses of c07_sound,
    c07_sound_simple and c07_zero_root are satisfiable *)
